@@ -67,7 +67,7 @@ def verify_contract(contract, X, canary=True):
     t0 = time.time()
     out = {'contract': contract.id, 'target': '%s::%s' % (contract.file, contract.qual), 'obligations': {},
            'status': 'ok', 'paths': 0, 'wall_s': 0.0, 'properties': contract.properties,
-           'assumed': describe_assumptions(contract)}
+           'assumed': describe_assumptions(contract), 'bounded': getattr(contract, 'bounded', None)}
     try:
         fn = _extract(contract)
         out['source_digest'] = source_digest(fn)
